@@ -39,7 +39,7 @@ pub fn run_bcase(c: &BCase, st: &mut BStats, trace: bool) -> BOut {
     let mut it = BInterp::new(&c.spec, st, trace);
     it.observe();
     for (i, op) in c.ops.iter().enumerate() {
-        if it.ended || !it.viols.is_empty() {
+        if it.ended || it.hard_viol() || it.viols.len() > 1 {
             break;
         }
         it.step = i;
